@@ -40,7 +40,7 @@ class Fn:
     """Contract for one function."""
 
     def __init__(self, path, ret=None, requires=(), ensures=(), decreases=None, attrs=(), loops=None,
-                 inserts=(), builtin_props='', sig_rewrites=(), dialect=(), opens_verus_fn=True, recommends=()):
+                 inserts=(), builtin_props='', sig_rewrites=(), dialect=(), trait_props=''):
         self.path = path
         self.ret = ret
         self.requires = list(requires)
@@ -52,6 +52,7 @@ class Fn:
         self.builtin_props = builtin_props.split() if isinstance(builtin_props, str) else list(builtin_props)
         self.sig_rewrites = list(sig_rewrites)
         self.dialect = list(dialect)
+        self.trait_props = trait_props.split() if isinstance(trait_props, str) else list(trait_props)
 
     def clauses(self):
         out = list(self.requires) + list(self.ensures)
